@@ -154,11 +154,20 @@ namespace occa {
     }
 
     void exprNode::printWarning(const std::string &message) const {
-      token->printWarning(message);
+      // Nodes of empty expressions, for example [()], don't have a token
+      if (token) {
+        token->printWarning(message);
+      } else {
+        occa::printWarning(io::stderr, message);
+      }
     }
 
     void exprNode::printError(const std::string &message) const {
-      token->printError(message);
+      if (token) {
+        token->printError(message);
+      } else {
+        occa::printError(io::stderr, message);
+      }
     }
 
     void exprNode::debugPrint() const {
